@@ -996,6 +996,20 @@ def g6(ctx, F, D):
     ok = len(tr) == 1 and fmtn(sym(tr[0]["args"][0]), 40) == keepv
     incs = [n for n, _ in hir.walk(body) if n.get("k") == "AssignOp" and n["op"] == "+=" and hir.strip(n["l"]).get("to", {}).get("name") == keepv
             and hir.strip(n["r"]).get("v") == 1]
+    # each kept move is stored at the keep index *before* the index moves on (the other order leaves a hole at the front and drops
+    # the last kept move)
+    order_ok = True
+    for w in writes:
+        blk = None
+        for n_, anc_ in hir.walk(body):
+            if n_ is w[3]:
+                bl = [a_ for a_ in anc_ if a_.get("k") == "Block"]
+                blk = bl[-1] if bl else None
+        inc_here = [i_ for i_ in incs if blk is not None and any(x is i_ for x, _ in hir.walk(blk))]
+        if inc_here and min(hir.order_key(i_) for i_ in inc_here) < hir.order_key(w[3]):
+            order_ok = False
+    ctx.check("C01.G8", "filter:stores-then-advances", order_ok, fn=FILTER, file=fn["file"],
+              what="the keep index must advance after the kept move was stored at it", found=order_ok)
     ctx.check("C01.G8", "filter:truncates-to-the-kept-prefix", ok and len(incs) == len(writes) and len(writes) >= 1, fn=FILTER, file=fn["file"],
               what="the list must be truncated to exactly the kept moves (keep index advanced once per kept move)",
               found={"truncate": [fmtn(sym(t["args"][0]), 40) for t in tr], "increments": len(incs)})
